@@ -1,6 +1,6 @@
 (* C08 - property theorems only. *)
 From Coq Require Import Reals List.
-Require Import PV.Num PV.Asympt PV.TestStat PV.Hypotest PV.gen.HypotestGen PV.TieHypotest PV.gen.AsymptGen PV.TieAsympt.
+Require Import PV.Num PV.Asympt PV.TestStat PV.Hypotest PV.HypotestNuis PV.gen.HypotestGen PV.TieHypotest PV.gen.AsymptGen PV.TieAsympt.
 Import ListNotations.
 
 (* all 32 combinations of (is_q0, four flags): the returned items are exactly the requested extras in the
@@ -64,6 +64,63 @@ Theorem C08_multi_bin_reduction : forall r bins mu,
   nll_bins r mu bins = ((mu * (r * B) + B) - Nn * ln (mu * (r * B) + B)) + (Nn * ln B - konst bins).
 Proof. exact multi_bin_reduction. Qed.
 
+(* --- the one-nuisance counting model ("on/off"): n ~ Pois(mu s + gamma b), auxiliary m ~ Pois(gamma tau); coq/HypotestNuis.v --- *)
+(* the closed-form conditional optimum (larger root of the stationarity quadratic) is the arg-min over gamma > 0 *)
+Theorem C08_onoff_gamma_cond_is_argmin : forall n m s b tau : R, 0 <= n -> 0 < m -> 0 < s -> 0 < b -> 0 < tau ->
+  forall mu g : R, 0 < lam1 s b mu (gamma_cond n m s b tau mu) -> 0 < g -> 0 < lam1 s b mu g ->
+  nll_onoff n m s b tau mu (gamma_cond n m s b tau mu) <= nll_onoff n m s b tau mu g.
+Proof. exact gamma_cond_is_argmin. Qed.
+(* the rate at the conditional optimum is positive for mu >= 0, and for every mu once a count was observed *)
+Theorem C08_onoff_rate_positive : forall n m s b tau : R, 0 <= n -> 0 < m -> 0 < s -> 0 < b -> 0 < tau ->
+  forall mu : R, 0 <= mu \/ 0 < n -> 0 < lam1 s b mu (gamma_cond n m s b tau mu).
+Proof. exact lam1_cond_pos. Qed.
+(* the clamped best fit (mu_hat, gamma_cond mu_hat) is the arg-min over the box lo <= mu <= hi, gamma > 0 *)
+Theorem C08_onoff_mu_hat_is_argmin : forall n m s b tau lo hi : R, 0 <= n -> 0 < m -> 0 < s -> 0 < b -> 0 < tau -> lo <= hi ->
+  0 < lam1 s b (mu_hat n m s b tau lo hi) (gamma_hat n m s b tau lo hi) ->
+  forall mu g : R, lo <= mu <= hi -> 0 < g -> 0 < lam1 s b mu g ->
+  nll_onoff n m s b tau (mu_hat n m s b tau lo hi) (gamma_hat n m s b tau lo hi) <= nll_onoff n m s b tau mu g.
+Proof. exact mu_hat_is_argmin. Qed.
+(* in the interior the best fit is the familiar (n - (m/tau) b)/s, m/tau *)
+Theorem C08_onoff_free_optimum : forall n m s b tau : R, 0 <= n -> 0 < m -> 0 < s -> 0 < b -> 0 < tau ->
+  0 < lam1 s b (mu_free n m s b tau) (gamma_cond n m s b tau (mu_free n m s b tau)) ->
+  gamma_cond n m s b tau (mu_free n m s b tau) = m / tau /\
+  lam1 s b (mu_free n m s b tau) (gamma_cond n m s b tau (mu_free n m s b tau)) = n.
+Proof. exact gamma_cond_at_free. Qed.
+(* q, qtilde, q0 (and t, ttilde) of the transcribed test-statistic functions with exact fits = the closed form *)
+Theorem C08_onoff_q_closed_form : forall n m s b tau lo hi C : R, 0 <= n -> 0 < m -> 0 < s -> 0 < b -> 0 < tau -> lo <= hi ->
+  0 <= lo \/ 0 < n ->
+  forall (st : tsname) (mu : R), lo <= mu <= hi -> (st = SQ0 -> lo <= 0 <= hi) ->
+  value_of RNum (teststat RNum unit (ofit n m s b tau lo hi C) (ofixed n m s b tau C) (fun _ : unit => Some 0%nat) (fun _ : unit => lo) st mu tt)
+  = Some (q_closed_onoff st n m s b tau lo hi mu).
+Proof. exact q_closed_form_onoff. Qed.
+(* the same under the weakest domain condition: the rate is positive at the conditional optimum of every POI value of the range
+   (covers n = 0 with a negative lower POI bound as long as lo s + gamma_cond(lo) b > 0) *)
+Theorem C08_onoff_q_closed_form_gen : forall n m s b tau lo hi C : R, 0 <= n -> 0 < m -> 0 < s -> 0 < b -> 0 < tau -> lo <= hi ->
+  (forall x : R, lo <= x <= hi -> 0 < lam1 s b x (gamma_cond n m s b tau x)) ->
+  forall (st : tsname) (mu : R), lo <= mu <= hi -> (st = SQ0 -> lo <= 0 <= hi) ->
+  value_of RNum (teststat RNum unit (ofit n m s b tau lo hi C) (ofixed n m s b tau C) (fun _ : unit => Some 0%nat) (fun _ : unit => lo) st mu tt)
+  = Some (q_closed_onoff st n m s b tau lo hi mu).
+Proof. exact q_closed_form_onoff_gen. Qed.
+(* the Asimov data set: expectation at the conditional fit with the POI at 0 (1 for q0) - instance of C08_asimov_is_expectation *)
+Theorem C08_onoff_asimov_is_expectation : forall (s b tau : R) (k : tkind) (n m : R),
+  asimov_of RNum (R * R) (list R) (onoff_fixed s b tau) (onoff_expected s b tau) k (n, m)
+  = (asimov_n n m s b tau (mu0_of k), asimov_m n m s b tau (mu0_of k)).
+Proof. exact onoff_asimov_is_expectation. Qed.
+(* the whole chain: Asimov data, observed p-values and expected band of the asymptotic calculator on the on/off model *)
+Theorem C08_hypotest_onoff_analytic : forall (Phi : R -> R) (s b tau lo hi C : R), 0 < s -> 0 < b -> 0 < tau -> lo <= hi ->
+  forall (k : tkind) (base : basedist) (mu n m : R),
+  known base -> 0 <= n -> 0 < m -> 0 <= lo \/ 0 < n -> lo <= mu <= hi -> lo <= 0 <= hi -> (k = KQ0 -> lo <= 1 <= hi) ->
+  exists exp_band,
+  onoff_calc Phi s b tau lo hi C k base mu (n, m) =
+  inr (asimov_n n m s b tau (mu0_of k), asimov_m n m s b tau (mu0_of k),
+       (Some (Phi (- (tstat k (q_obs_onoff s b tau lo hi k mu n m) (q_asimov_onoff s b tau lo hi k mu n m) + sqrt (q_asimov_onoff s b tau lo hi k mu n m)))),
+        Some (Phi (- tstat k (q_obs_onoff s b tau lo hi k mu n m) (q_asimov_onoff s b tau lo hi k mu n m))),
+        Some (Phi (- (tstat k (q_obs_onoff s b tau lo hi k mu n m) (q_asimov_onoff s b tau lo hi k mu n m) + sqrt (q_asimov_onoff s b tau lo hi k mu n m)))
+              / Phi (- tstat k (q_obs_onoff s b tau lo hi k mu n m) (q_asimov_onoff s b tau lo hi k mu n m)))),
+       exp_band) /\
+  inr exp_band = run_exp RNum Phi sqrt k base (q_obs_onoff s b tau lo hi k mu n m) (q_asimov_onoff s b tau lo hi k mu n m).
+Proof. exact hypotest_onoff_analytic. Qed.
+
 (* --- tie to the source: the tail of pyhf.infer.hypotest, _check_hypotest_prerequisites (PV.gen.HypotestGen, harness/props/c08.py:
    extract) and the POI value of the Asimov data in AsymptoticCalculator.teststatistic (PV.gen.AsymptGen) are translated on every
    run; they ARE the transcription (Hypotest.v) the theorems above are about --- *)
@@ -100,3 +157,11 @@ Print Assumptions C08_source_is_model_hypotest_tail.
 Print Assumptions C08_source_is_model_is_q0.
 Print Assumptions C08_source_is_model_check_prerequisites.
 Print Assumptions C08_source_is_model_asimov_mu.
+Print Assumptions C08_onoff_gamma_cond_is_argmin.
+Print Assumptions C08_onoff_rate_positive.
+Print Assumptions C08_onoff_mu_hat_is_argmin.
+Print Assumptions C08_onoff_free_optimum.
+Print Assumptions C08_onoff_q_closed_form.
+Print Assumptions C08_onoff_q_closed_form_gen.
+Print Assumptions C08_onoff_asimov_is_expectation.
+Print Assumptions C08_hypotest_onoff_analytic.
